@@ -60,6 +60,11 @@ def tasks(tier, seed):
         for M in ([2] if quick else [2, 3]):
             for rt in RES_TYPES:
                 T.append(('defect', kind, M, rt, True, 1, 'RADAU-RIGHT', 1))
+    # the residual of the values held NOW, after the level held other values at the same time (all residual types; the relative ones divide by the norm of the CURRENT initial value)
+    for kind in ['generic_implicit', 'imex_1st_order', 'explicit', 'multi_implicit', 'imex_1st_order_mass']:
+        for rt in RES_TYPES:
+            T.append(('defect', kind, 2, rt, kind == 'imex_1st_order', 1, 'RADAU-RIGHT', 0, True))
+    T.append(('defect', 'generic_implicit', 3, 'full_rel', True, 2, 'RADAU-RIGHT', 0, True))
     T.append(('stoprule',))
     from harness import c07
 
@@ -105,8 +110,8 @@ def znorm(rows):
     return zmax([zabs(x) for row in rows for x in row])
 
 
-def defect_case(rep, kind, M, rt, with_tau, n, quad='RADAU-RIGHT', lvl=0):
-    name = f'defect/{kind}/M{M}/{rt}/tau{int(with_tau)}/n{n}' + ('' if quad == 'RADAU-RIGHT' else f'/{quad}') + (f'/level{lvl}' if lvl else '')
+def defect_case(rep, kind, M, rt, with_tau, n, quad='RADAU-RIGHT', lvl=0, prior=False):
+    name = f'defect/{kind}/M{M}/{rt}/tau{int(with_tau)}/n{n}' + ('' if quad == 'RADAU-RIGHT' else f'/{quad}') + (f'/level{lvl}' if lvl else '') + ('/after-other-values-at-the-same-time' if prior else '')
     coef = c02.sym_coefs(kind, n)
     mass = [SymReal(z3.Real('mass_0'))] if kind == 'imex_1st_order_mass' else None
     dtv = z3.Real('dt')
@@ -126,6 +131,11 @@ def defect_case(rep, kind, M, rt, with_tau, n, quad='RADAU-RIGHT', lvl=0):
     def fn(c):
         c.add(dtv > 0)
         L = build(SymReal(dtv), coef, mass)
+        if prior:  # the level held OTHER values (another initial value in particular) at the same time before and its residual was computed then: a step
+            # whose predecessor sends a new value, or a second run from the same start time.  The residual reported now belongs to the values held now.
+            V0 = cm.fill_level(L, with_tau, n, prefix='p')
+            c.add(z3.Or([v != 0 for v in V0['u0']]))
+            L.sweep.compute_residual(stage='IT_CHECK')
         V = cm.fill_level(L, with_tau, n)
         if rt.endswith('rel'):
             c.add(z3.Or([v != 0 for v in V['u0']]))
@@ -133,7 +143,7 @@ def defect_case(rep, kind, M, rt, with_tau, n, quad='RADAU-RIGHT', lvl=0):
         vec = None
         if kind != 'imex_1st_order_mass':
             vec = [sp.terms(L.residual[m]) for m in range(M)]
-        return dict(V=V, res=R(L.status.residual), Q=np.array(L.sweep.coll.Qmat), vec=vec)
+        return dict(V=V, res=R(L.status.residual), Q=np.array(L.sweep.coll.Qmat), vec=vec, V0=(V0 if prior else None))
 
     paths = explore(fn)
     rep.paths += len(paths)
@@ -176,10 +186,10 @@ def defect_case(rep, kind, M, rt, with_tau, n, quad='RADAU-RIGHT', lvl=0):
         else:
             res, model = prove(r['res'] == spec, assumptions, timeout_ms=120000, name=name)
             rep.ob(name, res)
-        allv = cm.all_vars(V) + [dtv] + [x.t for v in coef.values() for row in v for x in row] + ([mass[0].t] if mass else [])
+        allv = cm.all_vars(V) + [dtv] + [x.t for v in coef.values() for row in v for x in row] + ([mass[0].t] if mass else []) + (cm.all_vars(r['V0']) if prior else [])
         if res == 'sat':
             env = cm.model_env(model, allv)
-            defect_triage(rep, kind, M, rt, with_tau, n, qd, env, name, quad, lvl)
+            defect_triage(rep, kind, M, rt, with_tau, n, qd, env, name, quad, lvl, prior)
         if with_tau and n == 1:
             # sensitivity: a specification without tau on the last node must be refuted
             d2 = ss.spec_defect(kind, r['Q'], zc, dtv, V['u0'], V['U'], V['tau'][:-1] + [[z3.RealVal(0)] * n], mass, coarse=bool(lvl))
@@ -204,7 +214,7 @@ def defect_case(rep, kind, M, rt, with_tau, n, quad='RADAU-RIGHT', lvl=0):
     rep.sample({'case': name, 'free_variables': 'u0, U, tau, dt, coefficients'}, limit=4)
 
 
-def defect_float(kind, M, rt, with_tau, n, qd, env, quad='RADAU-RIGHT', lvl=0):
+def defect_float(kind, M, rt, with_tau, n, qd, env, quad='RADAU-RIGHT', lvl=0, prior=False):
     """real float compute_residual vs numpy defect norm"""
     coefF = {nm: np.array([[env[f'{nm}_{i}{j}'] for j in range(n)] for i in range(n)]) for nm in c02.COEF_NAMES[kind]}
     mass = [env['mass_0']] if kind == 'imex_1st_order_mass' else None
@@ -214,6 +224,15 @@ def defect_float(kind, M, rt, with_tau, n, qd, env, quad='RADAU-RIGHT', lvl=0):
     u0 = np.array([env[f'u0_{i}'] for i in range(n)])
     U = np.array([[env[f'U{m}_{i}'] for i in range(n)] for m in range(1, M + 1)])
     tau = np.array([[env[f'tau{m}_{i}'] if with_tau else 0.0 for i in range(n)] for m in range(M)])
+    if prior:
+        for m in range(M + 1):
+            L.u[m] = P.dtype_u(P.init)
+            L.u[m][:] = np.array([env.get(f'pu0_{i}', 1.0) for i in range(n)]) if m == 0 else np.array([env.get(f'pU{m}_{i}', 0.5) for i in range(n)])
+            L.f[m] = P.eval_f(L.u[m], 0.0)
+            if with_tau and m:
+                L.tau[m - 1] = P.dtype_u(P.init)
+                L.tau[m - 1][:] = np.array([env.get(f'ptau{m - 1}_{i}', 0.0) for i in range(n)])
+        L.sweep.compute_residual(stage='IT_CHECK')
     L.u[0] = P.dtype_u(P.init)
     L.u[0][:] = u0
     L.f[0] = P.eval_f(L.u[0], 0.0)
@@ -236,17 +255,17 @@ def defect_float(kind, M, rt, with_tau, n, qd, env, quad='RADAU-RIGHT', lvl=0):
     return obs, float(nd)
 
 
-def defect_triage(rep, kind, M, rt, with_tau, n, qd, env, name, quad='RADAU-RIGHT', lvl=0):
+def defect_triage(rep, kind, M, rt, with_tau, n, qd, env, name, quad='RADAU-RIGHT', lvl=0, prior=False):
     rep.replayed += 1
     try:
-        obs, exp = defect_float(kind, M, rt, with_tau, n, qd, env, quad, lvl)
+        obs, exp = defect_float(kind, M, rt, with_tau, n, qd, env, quad, lvl, prior)
     except Exception as e:
         rep.unreproduced(name, f'{type(e).__name__}: {e}')
         return
     if abs(obs - exp) > 1e-8 * (1 + abs(exp)):
-        clause = 'coarse-level-residual' if lvl else ('residual-type-ignored' if kind == 'imex_1st_order_mass' and rt != 'full_abs' else 'residual-is-defect')
+        clause = 'residual-of-earlier-values' if prior else 'coarse-level-residual' if lvl else ('residual-type-ignored' if kind == 'imex_1st_order_mass' and rt != 'full_abs' else 'residual-is-defect')
         rep.violation(f'{PID}/{kind}/{clause}', f'{name}: reported residual {obs:.6e} but the {rt} norm of the defect is {exp:.6e}',
-                      {'task': ['defect', kind, M, rt, with_tau, n, quad, lvl], 'qd': list(qd), 'env': env, 'observed': obs, 'expected': exp})
+                      {'task': ['defect', kind, M, rt, with_tau, n, quad, lvl, prior], 'qd': list(qd), 'env': env, 'observed': obs, 'expected': exp})
     else:
         rep.unreproduced(name, {'env': env, 'observed': obs, 'expected': exp})
 
@@ -334,7 +353,7 @@ def replay(path):
     t = d['task']
     c02._load()
     if t[0] == 'defect':
-        obs, exp = defect_float(t[1], t[2], t[3], t[4], t[5], tuple(d['qd']), d['env'], t[6] if len(t) > 6 else 'RADAU-RIGHT', t[7] if len(t) > 7 else 0)
+        obs, exp = defect_float(t[1], t[2], t[3], t[4], t[5], tuple(d['qd']), d['env'], t[6] if len(t) > 6 else 'RADAU-RIGHT', t[7] if len(t) > 7 else 0, bool(t[8]) if len(t) > 8 else False)
         print('observed', obs, 'expected', exp)
         bad = abs(obs - exp) > 1e-8 * (1 + abs(exp))
     elif isinstance(t[0], int) or t[0] is None or len(t) == 8:
